@@ -167,6 +167,33 @@ func ruleC18Index(cx *Ctx) {
 	sort.Strings(ipairs)
 	cx.R.Check(len(fpairs) == 4, rule, funcName(freq), "four counters read", cx.P.Pos(freq.Pos()), fmt.Sprintf("frequency reads 4 counters (found %d; %s)", len(fpairs), strings.Join(fdesc, ";")))
 	cx.R.Check(len(ipairs) == 4, rule, funcName(inc), "four counters incremented", cx.P.Pos(inc.Pos()), fmt.Sprintf("increment updates 4 counters (found %d)", len(ipairs)))
+	// ... each of them on every recording: no counter update is skipped because another one succeeded (a short-circuit
+	// `added || incrementAt(...)` would leave later counters behind, and the minimum would under-count)
+	{
+		var calls []ssa.Instruction
+		allInstrs(inc, func(in ssa.Instruction) {
+			if incAt != nil && isCallTo(in, incAt) {
+				calls = append(calls, in)
+			}
+		})
+		okAll := len(calls) > 0
+		for _, c := range calls {
+			for _, g := range guardsAt(c.Block()) {
+				// the only admissible guard is the initialisation test
+				gc, isCall := g.Cond.(*ssa.Call)
+				if isCall && gc.Call.StaticCallee() != nil && (origin(gc.Call.StaticCallee()).Name() == "isNotInitialized" || origin(gc.Call.StaticCallee()).Name() == "Load") {
+					continue
+				}
+				if u, isU := g.Cond.(*ssa.UnOp); isU {
+					if _, isCall2 := u.X.(*ssa.Call); isCall2 {
+						continue
+					}
+				}
+				okAll = false
+			}
+		}
+		cx.R.Check(okAll, rule, funcName(inc), "every counter updated on every recording", cx.P.Pos(inc.Pos()), "the four incrementAt calls are conditional on nothing but the initialisation test")
+	}
 	for i := 0; i < len(fpairs) && i < len(ipairs); i++ {
 		cx.R.Check(fpairs[i] == ipairs[i], rule, "sketch", fmt.Sprintf("counter %d agreement", i), cx.P.Pos(inc.Pos()),
 			"same (slot @ nibble shift) in both: frequency "+fpairs[i]+" | increment "+ipairs[i])
